@@ -188,6 +188,9 @@ class BaseComponent(Manager):
             self.parent = self
 
         self._updateRoot(self)
+        # this component is a root (again): a handler cache left over from
+        # an earlier life as root predates everything that happened since
+        self._cache_needs_refresh = True
         return self
 
     def _updateRoot(self, root):
